@@ -78,6 +78,8 @@ func TestC15(t *testing.T) {
 			} else {
 				for j := 0; j < s.clients; j++ {
 					add(revent{name: fmt.Sprintf("AD(%d)", j), ops: []string{fmt.Sprintf("reattach:%d", j), "start"}, expect: []string{"", "notfound"}}, s)
+					// nothing listens any more, but the recorded pid is (now) a live process: a reused pid
+					add(revent{name: fmt.Sprintf("ADL(%d)", j), ops: []string{fmt.Sprintf("reattachlive:%d", j), "start"}, expect: []string{"", "notfound"}}, s)
 					add(revent{name: fmt.Sprintf("RdDead(%d)", j), ops: []string{fmt.Sprintf("get:@%d", j)}, expect: []string{"err"}}, s)
 				}
 			}
@@ -118,6 +120,9 @@ func TestC15(t *testing.T) {
 			{"testserve:" + proto, "treattach", "start", "client", "dispense", "set:7", "kill", "closed?", "treattach", "start", "client", "dispense", "get", "kill", "cancel"},
 			{"testserve:" + proto, "treattach", "start", "client", "dispense", "set:7", "treattach", "start", "client", "dispense", "get", "kill:0", "get", "closed?", "cancel"},
 			{"testserve:" + proto, "cancel"},
+			// reattach after the test-mode server's context was cancelled: nothing listens, the pid (our own) is alive
+			{"testserve:" + proto, "treattach", "start", "client", "dispense", "set:7", "kill", "cancel", "treattach", "start!notfound"},
+			{"testserve:" + proto, "cancel", "treattach", "start!notfound"},
 			// second generation: a client reattached from a reattached client's own ReattachConfig
 			{"testserve:" + proto, "treattach", "start", "client", "dispense", "set:7", "reattach:0", "start", "client", "dispense", "get", "kill:1", "closed?", "get:@0", "cancel"},
 		} {
@@ -183,7 +188,13 @@ func TestC15(t *testing.T) {
 			out.Outcomes["real-process"]++
 		} else {
 			// test mode: nothing may fail; the server is still serving after Kill; cancel closes CloseCh
-			for _, o := range r.Ops {
+			for k, o := range r.Ops {
+				if k < len(c.Ops) && strings.HasSuffix(c.Ops[k], "!notfound") {
+					if !strings.Contains(o.Err, "ErrProcessNotFound") {
+						bad("test mode: reattach after the server's context was cancelled gave %q, expected the process-not-found error", o.Err)
+					}
+					continue
+				}
 				if o.Err != "" {
 					bad("test mode: %s failed: %s", o.Op, o.Err)
 				}
